@@ -51,7 +51,7 @@ def operator_context_cases(ctx: Ctx, backend: str, opts, fraction: int):
            ("math", "num", lambda J, E: f"sqrt(abs({x(J, E)}))"), ("math2", "num", lambda J, E: f"atan2({x(J, E)}, 2.0)"), ("count", "num", lambda J, E: f"{seq(J, E)}.Count()"),
            ("sum", "num", lambda J, E: f"{seq(J, E)}.Sum()"), ("aggregate", "num", lambda J, E: f"{iseq(J, E)}.Aggregate(1, lambda a, v: a + v * 2)"),
            ("where_count", "num", lambda J, E: f"{seq(J, E)}.Where(lambda v: v > 10.0).Count()"), ("first_guarded", "num", lambda J, E: f"({seq(J, E)}.First() if {seq(J, E)}.Count() > 0 else -1.0)"),
-           ("index_guarded", "num", lambda J, E: f"({iseq(J, E)}[1] if {iseq(J, E)}.Count() > 1 else -1)"), ("range_sum", "num", lambda J, E: f"Range(0, {i(J, E)}).Sum()"),
+           ("index_guarded", "num", lambda J, E: (f"({J}.hits()[1] if {J}.hits().Count() > 1 else -1)" if J else f"({E}.{C}('A')[1].nTrk() if {E}.{C}('A').Count() > 1 else -1)")), ("range_sum", "num", lambda J, E: f"Range(0, {i(J, E)}).Sum()"),
            ("tuple_index", "num", lambda J, E: f"({x(J, E)}, {i(J, E)})[1]"), ("dict_index", "num", lambda J, E: f"{{'p': {x(J, E)}, 'q': {i(J, E)}}}['p']"),
            ("select_sum", "num", lambda J, E: f"{seq(J, E)}.Select(lambda v: v * 2).Sum()")]
     out = []
